@@ -62,6 +62,7 @@ type worldCase struct {
 	Steps    []step               `json:"steps"`
 	Sections []string             `json:"sections"` // section prefixes that count for the property being checked
 	Cores    int                  `json:"cores"`
+	Frame    string               `json:"frame"` // where the vertex polygon lies (obs.SetFrame)
 }
 
 type mismatch struct {
@@ -145,7 +146,7 @@ func buildWorld(impl string, base obs.AWorld) (ingest.MutableWorld, error) {
 var compactCache = map[string][]byte{}
 
 func cachedCompact(base obs.AWorld) ([]byte, error) {
-	key := obs.Canon(base)
+	key := obs.FrameName() + obs.Canon(base)
 	if d, ok := compactCache[key]; ok {
 		return d, nil
 	}
@@ -674,6 +675,7 @@ func runWorld(data json.RawMessage) vh.Verdict {
 	if err := json.Unmarshal(data, &c); err != nil {
 		return vh.Fail("harness-json", "bad case: %v", err)
 	}
+	obs.SetFrame(c.Frame)
 	w, err := buildWorld(c.Impl, c.Base)
 	if err != nil {
 		return vh.Fail("harness-base", "cannot build base world: %v", err)
